@@ -3,6 +3,9 @@ package props
 import (
 	"bytes"
 	"fmt"
+	"io"
+	"log"
+	"log/slog"
 	"math"
 	"os"
 	"path/filepath"
@@ -279,7 +282,35 @@ func c19Big(c *core.Ctx, n int) {
 	c.NonTrivial(core.Hash64("big", strconv.Itoa(n)))
 }
 
+// c19Logger installs one of the logger configurations an application may
+// run with (the library reports failed reads through the default logger of
+// log/slog) and returns a function that restores the previous one.
+func c19Logger(c *core.Ctx) (restore func()) {
+	k := c.Rng.Intn(4)
+	if k == 0 {
+		return func() {}
+	}
+	prev := slog.Default()
+	var h slog.Handler
+	switch k {
+	case 1:
+		h = slog.NewTextHandler(io.Discard, &slog.HandlerOptions{Level: slog.LevelDebug})
+	case 2:
+		h = slog.NewJSONHandler(io.Discard, &slog.HandlerOptions{Level: slog.LevelDebug, AddSource: true})
+	default:
+		h = slog.NewTextHandler(io.Discard, &slog.HandlerOptions{Level: slog.LevelError + 4})
+	}
+	slog.SetDefault(slog.New(h))
+	c.Event("cases_with_logger_"+[]string{"", "text_debug", "json_debug_with_source", "above_error"}[k], 1)
+
+	return func() {
+		slog.SetDefault(prev)
+		log.SetOutput(os.Stderr)
+	}
+}
+
 func c19Run(c *core.Ctx, idx int) {
+	defer c19Logger(c)()
 	if idx == 1 {
 		c19Big(c, map[core.Tier]int{core.Quick: 9000, core.Thorough: 70000}[c.Env.Tier])
 
@@ -582,6 +613,7 @@ func init() {
 		ID:    "C19",
 		Level: "fault_enumeration",
 		Rule: "per case one file-backed list (DNS: rules + hosts lines over colliding names; network: a pool mixing all index paths) and one query history of 10..30 (thorough 10..60) queries drawn with repeats from 8 distinct requests; in half of the cases the list is padded beyond the 4 KiB read block so that a rule straddles a block boundary exactly where its prefix is a valid broader rule matching a request of the history; for EVERY fault point k in 0..n and every fault kind in {RuleStorage.Close, file handle replaced by an already closed descriptor, by a directory descriptor (Seek succeeds, reads fail with EISDIR), by the read end of a closed pipe (Seek fails with ESPIPE), by an already closed descriptor of ANOTHER file that holds different matching rules at the same offsets, RuleStorage.Close followed by opening that other file four times (descriptor numbers are recycled)} the engine is rebuilt, queries before k must equal a String-backed twin, queries from k on must not panic, must return a subset of the fault-free result whose members individually match, and must still return every rule materialised before k (tracked from storage.insert hook events, cross-checked with GetCacheSize); " +
+			"each case under one of four logger configurations of log/slog (default, text or JSON at debug level, above error); " +
 			"plus one case that materialises 9 000 (thorough 70 000) rules before each kind of fault and demands all of them afterwards; non-trivial = every (list, history) pair, each contributing 6*(n+1) fault placements; distinct by list and history length",
 		Assumptions: []string{
 			"the fault-free oracle is a String-backed twin engine over the same bytes",
